@@ -699,7 +699,7 @@ UNITS = [
     U(id="pfx_free", props=["C09", "C18"], file="units/pfx_free.c", entry="h_pfx_free", defines=["STUB_IP"], enforce=[], plain=True,
       checked_by_assertions=["pfx_table_free", "trie_remove"], need_classes=["assertion"],
       kind="bounded: every trie shape of 2 levels (root + up to two children), 1..2 records per node", bound=6, unwindset={"trie_remove": 3},
-      native=None, timeout=1800, allow_undefined=True, cbmc_flags=["--sat-solver", "cadical"], stubs=["lrtr_free", "pthread_rwlock_*", "lrtr_ip_addr_*"]),
+      native={"skip_all": True, "libs": ["-lpthread"]}, timeout=1800, allow_undefined=True, cbmc_flags=["--sat-solver", "cadical"], stubs=["lrtr_free", "pthread_rwlock_*", "lrtr_ip_addr_*"]),
     U(id="spki_add", props=["C10", "C16", "C18"], file="units/spki_ops.c", entry="h_spki_add", tier="lab", defines=["H_ENTRY=h_spki_add", "KN=2"], enforce=[], plain=True,
       checked_by_assertions=["spki_table_add_entry", "key_entry_cmp", "tommy_hashlin_search"], need_classes=["assertion"], kind="bounded: bucket chain / list of at most 2 entries",
       bound=93, unwindset={"tommy_hashlin_search.0": 4, "tommy_hashlin_remove.0": 4},
